@@ -18,8 +18,8 @@ pub enum Answer {
     False,
     Opened,
     Err(io::ErrorKind),
-    /// end of a read stream: bytes delivered, how it ended
-    Stream { delivered: usize, end: &'static str },
+    /// end of a read stream: bytes delivered, how it ended, whether the delivered bytes are UTF-8
+    Stream { delivered: usize, end: &'static str, utf8: bool },
 }
 
 #[derive(Clone, Debug)]
@@ -355,7 +355,11 @@ impl Vfs {
             "read",
             &r.raw,
             &r.path,
-            Answer::Stream { delivered: r.pos, end },
+            Answer::Stream {
+                delivered: r.pos,
+                end,
+                utf8: std::str::from_utf8(&r.data[..r.pos.min(r.data.len())]).is_ok(),
+            },
             r.depths,
             fault,
         );
